@@ -485,7 +485,10 @@ func (p *SimPeer) filterFor(b *chainmodel.Block) (*gcs.Filter, chainhash.Hash) {
 				}
 				continue
 			}
-			if ti > 0 && victim == nil {
+			if ti > 0 && (victim == nil || chainmodel.IsOddScript(o.PkScript)) {
+				// (an output whose script does not parse is the preferred
+				// one to leave out: a verifier that takes "cannot be
+				// spent" for "is not in the filter" lets that pass)
 				victim = o.PkScript
 			}
 			add(o.PkScript)
